@@ -115,11 +115,12 @@ for op, sym in (('operator>', '>'), ('operator<', '<'), ('operator==', '==')):
                           ('done', 'forall(lambda k: Implies(And(0 <= k, k < i), res[k] == (_vec[k] %s val)))' % sym)]}})
 
 fn(A + 'operator|=', TU, key='base_array::operator|=', serves=['C03'], returns_ref='this', assigns=['this._vec'],
-   may_throw=True,
+   throws='this.len + rhs.len > INT_MAX',   # the modelled allocation limit (std::length_error)
    ensures=[('length', 'this.len == old.this.len + old.rhs.len'),
             ('head', 'forall(lambda k: Implies(And(0 <= k, k < old.this.len), this[k] == old.this[k]))'),
             ('tail', 'forall(lambda k: Implies(And(0 <= k, k < old.rhs.len), eqv(this[old.this.len + k], old.rhs[k])))')])
-fn(A + 'operator|', TU, key='base_array::operator|', serves=['C03'], pure=True, may_throw=True,
+fn(A + 'operator|', TU, key='base_array::operator|', serves=['C03'], pure=True,
+   throws='this.len + rhs.len > INT_MAX',
    ensures=[('length', 'result.len == this.len + rhs.len'),
             ('head', 'forall(lambda k: Implies(And(0 <= k, k < this.len), eqv(result[k], this[k])))'),
             ('tail', 'forall(lambda k: Implies(And(0 <= k, k < rhs.len), eqv(result[this.len + k], rhs[k])))')])
@@ -127,3 +128,7 @@ fn(A + 'operator=', TU, sig='&(const base_array<', key='base_array::operator=(co
    returns_ref='this', assigns=['this._vec'],
    scenarios=[{'name': 'distinct'}, {'name': 'self', 'alias': {'rhs': 'this'}}],
    ensures=[('copy', 'this == old.rhs')])
+
+fn(A + 'operator=', TU, sig='&(base_array<', key='base_array::operator=(move)', serves=['C03'],
+   returns_ref='this', assigns=['this._vec', 'rhs._vec'],
+   ensures=[('moved', 'this == old.rhs')])
